@@ -128,6 +128,10 @@ def run(ctx):
             off = rng.choice(offsets)
             period = rng.choice(['days', 'hours', 'seconds'])
             f = (rng.randint(1900, 2100), rng.randint(1, 12), rng.randint(1, 28), rng.randint(0, 23), rng.choice([0, 30]), 0)
+            if n % 4 == 1:
+                # epochs outside the range of 64-bit nanoseconds: xarray decodes such a time axis to cftime objects
+                f = (rng.choice([1600, 2300, 1066]),) + f[1:]
+            ctx.count(f'epoch:{"within datetime64[ns]" if 1700 < f[0] < 2250 else "outside datetime64[ns] (cftime)"}')
             units, style = spell(rng, period, f, off, rng.choice(['iso', 'space', 'short_offset']))
             # whole seconds only: decoding to nanoseconds goes through float64, sub-second instants far from the epoch
             # are not exactly representable (an artefact of the input, not of emsarray)
@@ -198,7 +202,8 @@ def run(ctx):
                     a = first[v]
                     b = a.attrs.get('bounds')
                     lits.append('{| tv_name := %d; tv_datetime := %s; tv_since := %s; tv_bounds := %s |}' % (
-                        vnames.index(v), 'true' if a.dtype.type == numpy.datetime64 else 'false',
+                        vnames.index(v), 'true' if (a.dtype.type == numpy.datetime64 or (
+                            a.dtype == object and a.size and type(a.values.flat[0]).__module__.startswith('cftime'))) else 'false',
                         'true' if 'since' in str(a.encoding.get('units', '')) else 'false',
                         f'Some {vnames.index(b)}' if b in vnames else ('Some 9999' if b is not None else 'None')))
                 with warnings.catch_warnings():
@@ -272,6 +277,32 @@ def run(ctx):
             new_units = rb.get(tname, {}).get('units')
             if not bad and (new_units is None or not SHAPE.match(str(new_units))):
                 bad = f'time units written as {new_units!r}: not the EMS form'
+            # the same save through the function behind the method, naming the time variable explicitly: same file content
+            if not bad and not kwargs and n % 2 == 0:
+                from emsarray import utils as ems_utils
+                dst2 = os.path.join(tmp, f'dst2_{n}.nc')
+                with warnings.catch_warnings():
+                    warnings.simplefilter('ignore')
+                    r2 = attempt(lambda: ems_utils.to_netcdf_with_fixes(first, dst2, time_variable=tname))
+                ctx.count('utils.to_netcdf_with_fixes')
+                if r2[0] != 'ok':
+                    bad = f'utils.to_netcdf_with_fixes(..., time_variable={tname!r}) failed: {r2[1]}'
+                else:
+                    rc = raw_attrs(dst2)
+                    if rc.get(tname, {}).get('units') != new_units:
+                        bad = (f'utils.to_netcdf_with_fixes writes time units {rc.get(tname, {}).get("units")!r}, the convention method '
+                               f'{new_units!r}')
+                    else:
+                        with warnings.catch_warnings():
+                            warnings.simplefilter('ignore')
+                            third = xarray.open_dataset(dst2)
+                            third.load()
+                            third.close()
+                        for v in second.variables:
+                            if v not in third.variables or not numpy.array_equal(
+                                    second[v].values, third[v].values, equal_nan=second[v].dtype.kind == 'f'):
+                                bad = f'variable {v} differs between utils.to_netcdf_with_fixes and dataset.ems.to_netcdf'
+                                break
             if bad:
                 ctx.report('property', bad, case)
                 continue
